@@ -27,12 +27,15 @@ def snapshot(p):
     nsc = len(list(p.scenarios))
     for t in p.tasks:
         out[t.fullId] = [[bool(t.get("scheduled", s)), secs(t.get("start", s)), secs(t.get("end", s))] for s in range(nsc)]
-    led = {}
-    for r in p.resources:
-        rs = r.data[0] if r.data else None
-        if rs is not None:
-            led[r.fullId] = {str(i): [[t.fullId, round(x, 6)] for t, x in l] for i, l in rs.slotTaskUsage.items()}
-    return out, led
+    leds = []
+    for s in range(nsc):
+        led = {}
+        for r in p.resources:
+            rs = r.data[s] if r.data else None
+            if rs is not None:
+                led[r.fullId] = {str(i): [[t.fullId, round(x, 6)] for t, x in l] for i, l in rs.slotTaskUsage.items()}
+        leds.append(led)
+    return out, leds
 
 
 def run(case):
@@ -43,7 +46,8 @@ def run(case):
             p = ProjectFileParser().parse(case["text"])
         before, led = snapshot(p)
         res["tasks"] = before
-        res["ledger"] = led
+        res["ledger"] = led[0] if led else {}
+        res["ledgers"] = led
         res["leaf"] = {t.fullId: bool(t.leaf()) for t in p.tasks}
         res["rates"] = {r.fullId: (r.get("rate", 0) or 0.0) for r in p.resources}
         reports = []
